@@ -55,6 +55,21 @@ var htmlQuotedAlpha = append([]string{" ", ">", "=", "\n", "<", "</a>", "/>", "\
 func (o HTMLOpts) tmplRegion(r *rand.Rand) string {
 	inner := []string{" .X ", "if eq .A 0", "end", " \"}}\" ", " 'a>b' ", " x \"q\\\"r\" ", "=1", " . ", "range $i := .L", " 'it\\'s' ", ""}
 	body := Pick(r, inner)
+	if r.Intn(3) == 0 {
+		// a random quoted string: escaped quotes, escaped backslashes (also directly before the closing quote), the other
+		// quote and the end delimiter inside it
+		q := Pick(r, []string{"\"", "'"})
+		other := "'"
+		if q == "'" {
+			other = "\""
+		}
+		str := q
+		for i := r.Intn(5); i > 0; i-- {
+			str += Pick(r, []string{"a", "\\" + q, "\\\\", "}}", other, " ", "\\n", ">", "<b>"})
+		}
+		str += q
+		body = Pick(r, []string{" printf ", " ", " .X | f "}) + str + Pick(r, []string{"", " ", " .Y"})
+	}
 	// the end delimiter may only occur inside quoted strings of the body
 	if o.Tmpl[1] != "}}" {
 		body = strings.ReplaceAll(body, "}}", o.Tmpl[1])
@@ -336,17 +351,21 @@ func HTMLDoc(r *rand.Rand, o HTMLOpts) (doc string, toks []XTok) {
 			case c < 3:
 				text()
 			case c == 3:
-				t := htmlChars(r, []string{"a", " ", "b", "<b>", "é", ">", "-", "\n", "!"}, SmallLen(r, 6))
-				for strings.Contains(t, "--") {
-					t = strings.ReplaceAll(t, "--", "- -")
+				// the comment ends at the first "-->" (or "--!>"): dashes elsewhere, also directly in front of the closing
+				// "-->" (<!-- a --->) and in runs (<!-- a -- b -->), belong to the text
+				t := htmlChars(r, []string{"a", " ", "b", "<b>", "é", ">", "-", "--", "-", "\n", "!"}, SmallLen(r, 6))
+				for strings.Contains(t, "-->") || strings.Contains(t, "--!>") {
+					t = strings.ReplaceAll(t, "-->", "-- >")
+					t = strings.ReplaceAll(t, "--!>", "--! >")
 				}
 				t = strings.TrimPrefix(t, ">")
 				if strings.HasPrefix(t, "->") {
 					t = "x" + t
 				}
-				t = strings.TrimRight(t, "-")
 				t = strings.TrimSuffix(t, "<!")
-				t = strings.TrimRight(t, "-")
+				if strings.HasSuffix(t, "--!") {
+					t += "a"
+				}
 				emit(XTok{Type: "Comment", Data: "<!--" + t + "-->", Text: t})
 			case c == 4:
 				t := htmlChars(r, []string{"a", " ", "]", ">", "<b>", "]]", "&"}, SmallLen(r, 6))
